@@ -41,6 +41,9 @@ Proof.
     destruct (IHp1 en mm H2 A1) as [B1 B2], (IHp2 en mm H3 A2) as [C1 C2].
     rewrite B1, C1, A3, B2, C2, (decl_nonneg_ok en mm ms H1). auto.
   - apply andb_prop in Hm as [H1 H2]. rewrite H1. cbn [guard_k orelse]. now apply IHp.
+  - now apply IHp.
+  - now apply IHp.
+  - now apply IHp.
 Qed.
 
 Theorem must_accept_checks p : forall en mm, must_accept p en = true -> check p en mm = None.
@@ -168,6 +171,9 @@ Proof.
     + destruct (IHp (menv pm en) k Hk) as [Hin|[-> Had]].
       * left. cbn [viol]. apply in_or_app. now right.
       * right. split; [reflexivity|]. exact Had.
+  - destruct (IHp en k Hk) as [Hin|[-> Had]]; [left; exact Hin | right; split; [reflexivity | exact Had]].
+  - destruct (IHp en k Hk) as [Hin|[-> Had]]; [left; exact Hin | right; split; [reflexivity | exact Had]].
+  - destruct (IHp en k Hk) as [Hin|[-> Had]]; [left; exact Hin | right; split; [reflexivity | exact Had]].
 Qed.
 
 Lemma adecls_bad_viol p : forall en mm,
@@ -195,6 +201,9 @@ Proof.
     + apply in_or_app. right. apply in_or_app. right. apply in_or_app. left. now apply (IHp2 en mm).
   - destruct (forallb (pcon_ok en) cs); [|discriminate]. cbn [guard_k orelse] in Ha.
     cbn [viol]. apply in_or_app. right. now apply (IHp (menv pm en) (mcomp mml mm)).
+  - now apply (IHp en mm).
+  - now apply (IHp en mm).
+  - now apply (IHp en mm).
 Qed.
 
 Lemma atomic_check_viol p en mm k :
